@@ -238,7 +238,7 @@ def evaluate(plan, ctx):
     return Result(nontrivial, sorted(set(events)))
 
 
-SUBCHECKS = [SubCheck("history", strategy, evaluate, quick=4000, thorough=80000)]
+SUBCHECKS = [SubCheck("history", strategy, evaluate, quick=8000, thorough=80000)]
 KNOWN = {}
 
 MANIFEST = {
